@@ -52,6 +52,8 @@ func genC12(rng *rand.Rand, tier string) *core.Plan {
 	p.Cfg["maporder"] = rng.Intn(2) // tape-chosen iteration order of Go maps in the code under test
 	p.Cfg["families"] = 1 + rng.Intn(2)
 	p.Cfg["fieldmodes"] = rng.Intn(2)
+	p.Cfg["route"] = rng.Intn(2) // the rows find their shard and family through lindb's broker-side routing
+	p.Cfg["multi"] = rng.Intn(2) // statements may select two columns
 	return p
 }
 
@@ -71,8 +73,9 @@ func runC12(c *core.RunCtx) {
 	}
 	k := c.Plan.C("shards", 2)
 	tag := NewTag(c)
-	ra := &run{c: c, n: n, db: "a" + tag, shards: 1}
-	rk := &run{c: c, n: n, db: "k" + tag, shards: k}
+	route := c.Plan.C("route", 0) == 1
+	ra := &run{c: c, n: n, db: "a" + tag, shards: 1, route: route}
+	rk := &run{c: c, n: n, db: "k" + tag, shards: k, route: route}
 	for _, r := range []*run{ra, rk} {
 		if err := n.CreateDB(r.db, r.shards); err != nil {
 			c.Anomaly("create db: %v", err)
@@ -109,7 +112,7 @@ func runC12(c *core.RunCtx) {
 
 func queryC12(c *core.RunCtx, ra, rk *run, op core.Op) {
 	rng := rand.New(rand.NewSource(atoi(op.S)))
-	q := genQuery(rng, "C11", c.Plan.C("families", 1))
+	q := genQuery(rng, "C11", c.Plan.C("families", 1), c.Plan.C("multi", 0) == 1)
 	sqlText := q.sql()
 	before := len(rk.points)
 	exp := rk.expected(q, before)
@@ -174,9 +177,24 @@ func queryC12(c *core.RunCtx, ra, rk *run, op core.Op) {
 				c.Sim.Probe("unknown-tag-key")
 				continue
 			}
-			if strings.Contains(err.Error(), "not found") && len(exp) == 0 {
+			if strings.Contains(err.Error(), "not found") && len(exp) == 0 && (!q.two || len(rk.expected(q.second(), before)) == 0) {
 				c.Sim.Probe("empty-result")
 				continue
+			}
+			if q.two && strings.Contains(err.Error(), "not found") {
+				// a statement naming a field that no written point carries is rejected
+				unknown := false
+				for _, qq := range []queryDef{q, q.second()} {
+					written := false
+					for _, p := range rk.points[:before] {
+						written = written || p.field == qq.field
+					}
+					unknown = unknown || !written
+				}
+				if unknown {
+					c.Sim.Probe("unknown-field")
+					continue
+				}
 			}
 			if strings.Contains(err.Error(), "not found") {
 				c.Violate("C12/data-not-found", "%s [%s]: query failed with %q but %d groups are expected", sqlText, l.name, err, len(exp))
@@ -186,6 +204,9 @@ func queryC12(c *core.RunCtx, ra, rk *run, op core.Op) {
 			return
 		}
 		rk.compare(sqlText+" ["+l.name+"]", q, exp, rs)
+		if q.two && !c.Violated() {
+			rk.compare(sqlText+" ["+l.name+", 2nd column]", q.second(), rk.expected(q.second(), before), rs)
+		}
 		if c.Violated() {
 			if os.Getenv("VERIF_TRACE") != "" {
 				for sh := 0; sh < k; sh++ {
@@ -216,6 +237,14 @@ func queryC12(c *core.RunCtx, ra, rk *run, op core.Op) {
 	// combines such fields in the order it meets the places (known finding of C11), so only presence is compared
 	_ = oneSeriesPerGroup
 	comparable := agg == "sum" || agg == "min" || agg == "max"
+	// min(f)/max(f) of a sum field: lindb combines the partial sums of a slot that sit in different places by the
+	// function (known finding of C11, function-over-partial-sums), and where the points sit differs between the
+	// two databases: presence only, like first/last
+	valuesOf := func(qq queryDef) bool {
+		a := fieldSpecs[qq.field].agg
+		return (a == "sum" || a == "min" || a == "max") && qq.fn != "min" && qq.fn != "max"
+	}
+	comparable = comparable && valuesOf(q)
 	base := answers[0]
 	for _, a := range answers[1:] {
 		if (a.err == nil) != (base.err == nil) {
@@ -228,6 +257,12 @@ func queryC12(c *core.RunCtx, ra, rk *run, op core.Op) {
 		if d := diffResult(q, base.rs, a.rs, comparable); d != "" {
 			c.Violate("C12/layout-changes-answer", "%s: [%s] and [%s] differ: %s", sqlText, base.name, a.name, d)
 			return
+		}
+		if q.two {
+			if d := diffResult(q.second(), base.rs, a.rs, valuesOf(q.second())); d != "" {
+				c.Violate("C12/layout-changes-answer", "%s: [%s] and [%s] differ in the 2nd column: %s", sqlText, base.name, a.name, d)
+				return
+			}
 		}
 	}
 	c.Sim.Probe(fmt.Sprintf("layouts-%d", len(answers)))
@@ -243,7 +278,7 @@ func groupKey(q queryDef, s *commonmodels.Series) string {
 
 // diffResult compares two result sets: groups with at least one value of the field, and (if values) every value.
 func diffResult(q queryDef, a, b *commonmodels.ResultSet, values bool) string {
-	fname := fieldSpecs[q.field].name
+	fname := q.column()
 	idx := func(rs *commonmodels.ResultSet) map[string]map[int64]float64 {
 		m := map[string]map[int64]float64{}
 		for _, s := range rs.Series {
